@@ -290,7 +290,9 @@ static FWire dispatch(const std::string& comp,Reader& r,FReader&) {
                 cav = std::max(cav,std::fabs(s)/hmax);
             }
         }
-        out.z = Wire{ST_OK,(ll)n,npot,ndefl,(ll)geo.isolated_parts().size(),(ll)geo.meshes().size(),ncav,recv_changed};
+        ll nzero = 0;   // all-zero rows (unknowns nothing is ever written for)
+        for (unsigned i=0;i<n;++i) { bool z = true; for (unsigned j=0;j<n && z;++j) z = (H(i,j)==0.0); if (z) ++nzero; }
+        out.z = Wire{ST_OK,(ll)n,npot,ndefl,(ll)geo.isolated_parts().size(),(ll)geo.meshes().size(),ncav,recv_changed,nzero};
         out.f = { worst, smin, smax, resid, cav, resid_inplace, routes_diff, solve_res, solve_err };
         return out;
     }
